@@ -247,6 +247,14 @@ func (e *EvalBinaryNode) EvalInt(scope *Scope, executionState ExecutionState) (i
 }
 
 func (e *EvalBinaryNode) eval(scope *Scope, executionState ExecutionState) (resultContainer, *ErrSide) {
+	return e.evalRetry(scope, executionState, 0)
+}
+
+// maxTypeGuardRetries is the number of times one evaluation is tried again after a type guard failure,
+// each operand may have changed its type since the last evaluation.
+const maxTypeGuardRetries = 2
+
+func (e *EvalBinaryNode) evalRetry(scope *Scope, executionState ExecutionState, retries int) (resultContainer, *ErrSide) {
 	if e.evaluationFn == nil {
 		err := e.determineError(scope, executionState)
 		// determineError refreshed the operand types from this scope,
@@ -266,6 +274,11 @@ func (e *EvalBinaryNode) eval(scope *Scope, executionState ExecutionState) (resu
 	// the comparison fn
 	if err != nil {
 		if typeGuardErr, isTypeGuardError := err.error.(ErrTypeGuardFailed); isTypeGuardError {
+			if retries >= maxTypeGuardRetries {
+				// An operand whose Type and Eval* disagree fails its guard however often its type is fixed.
+				return boolFalseResultContainer, err
+			}
+
 			// Fix the type info, thanks to the type guard info
 			if err.IsLeft {
 				e.leftType = typeGuardErr.ActualType
@@ -280,7 +293,7 @@ func (e *EvalBinaryNode) eval(scope *Scope, executionState ExecutionState) (resu
 
 			// try again, if both sides changed type there is no evaluation fn
 			// for the half fixed pair and eval takes both types from the scope
-			return e.eval(scope, executionState)
+			return e.evalRetry(scope, executionState, retries+1)
 		}
 	}
 
